@@ -196,7 +196,18 @@ def _shard_random(args):
     return n, nontriv, tags, dis[:50], pairs[:3]
 
 
+
+MODULE_CASES = [
+    # ELLIPSIS switched off by a block directive of the FIRST doctest must not reach the second, and vice versa
+    (['>>> # xdoctest: -ELLIPSIS', '>>> print(1)', '1'], ['>>> print("a-anything-b")', 'a...b'], [], 0, None),
+    (['>>> # xdoctest: +ELLIPSIS', '>>> print(1)', '1'], ['>>> print("a-anything-b")', 'a...b'], ['second'], 0, {'ELLIPSIS': False}),
+    (['>>> print("a-x-b")  # xdoctest: -ELLIPSIS', 'a-x-b'], ['>>> print("a-anything-b")', 'a...b'], [], 0, None),
+]
+
+
 def correspondence(ctx, corr):
+    from . import _runloop_common as _common
+    _common.module_level_cases(ctx, corr, 'module-level', MODULE_CASES)
     tables.check(corr, {'isspace'})
     maxlen = 4 if ctx.quick else 5
     nshards = 16 if ctx.quick else 64
@@ -229,6 +240,10 @@ def correspondence(ctx, corr):
     # with ELLIPSIS switched off again '...' must lose its meaning again (no verdict may be remembered)
     from . import C05 as _c05
     _c05.stateful_reuse(ctx, corr)
+    # the part-level check (DoctestPart.check: trailing portions of the output since the previous want, value repr) with
+    # wants that start with / contain '...' under ELLIPSIS on and off: with the flag off '...' is ordinary text there too
+    from . import C02 as _c02
+    _c02.part_check_suite(ctx, corr, quick_n=1200, full_n=12000)
     # _check_match with the flag on and off
     rng = ctx.sub_rng('check_match')
     pairs = [gen_derived(rng) for _ in range(4000)]
@@ -262,7 +277,23 @@ def _fails(got, want):
 
 def search(ctx, corr, broken):
     from . import C05 as _c05
+    from . import C02 as _c02
     found = _c05.stateful_hits(corr)
+    for d in corr.disagreements:
+        if d['suite'] != 'part_check' or len(found) >= 5:
+            continue
+        inp = d['input']
+        try:
+            exp = _c02._spec_part_check(inp)
+            if exp is None:
+                continue
+            real = _c02._real_part_check(inp)
+        except Exception:
+            continue
+        if real != exp:
+            found.append({'kind': 'part_check', 'suite': 'part_check', 'input': inp, 'expected': exp, 'impl': real,
+                          'why': 'DoctestPart.check says %s; by the property (with the ELLIPSIS flag as given, some trailing portion of the output '
+                                 'or the value repr must match) it is %s' % (real, exp)})
     cands = []
     for d in corr.disagreements:
         i = d['input']
@@ -296,6 +327,14 @@ def replay_finding(ctx, finding):
 
 
 def replay(ctx, failing):
+    if 'module_source' in failing.get('input', {}):
+        from . import _runloop_common as _common
+        return _common.replay_module_level(ctx, failing, 'module-level', MODULE_CASES)
+    if failing.get('kind') == 'part_check':
+        from . import C02 as _c02
+        real = _c02._real_part_check(failing['input'])
+        print('DoctestPart.check(%r) -> %s, expected %s' % (failing['input'], real, failing['expected']))
+        return real != failing['expected']
     if failing.get('kind') == 'stateful':
         from . import C05 as _c05
         return _c05.replay_stateful(failing)
